@@ -16,8 +16,8 @@ Proof.
 Qed.
 
 Lemma in_domain_B_PB : forall B ec er children, in_domain_B B ec er children ->
-  PB.in_domain B (Z.of_nat (length children)) ec er children.
-Proof. intros B ec er children (H1 & H2 & H3). unfold PB.in_domain. repeat split; try tauto; lia. Qed.
+  PB.in_domain_b B (Z.of_nat (length children)) ec er children.
+Proof. intros B ec er children (H1 & H2 & H3). unfold PB.in_domain_b. repeat split; try tauto; lia. Qed.
 
 (* the pinned domain is the instance B = 64 with at most 64 children *)
 Lemma in_domain_is_instance : forall ec er children, in_domain ec er children <->
